@@ -566,7 +566,7 @@ var c19 = Check[c19Prog]{
 	},
 	Oracle: c19Oracle,
 	Obs: func(p c19Prog) Obs {
-		return Obs{Nontrivial: false, Classes: []string{"programs"}, Sample: map[string]any{"source_excerpt": truncateSample(p.source())}}
+		return Obs{Nontrivial: false, Classes: []string{"programs"}, Sample: p.source()}
 	},
 }
 
